@@ -16,7 +16,8 @@ Inductive obj : Type :=
 | OComplex (re im : Z)           (* halves *)
 | OStr (s : list N)
 | OBytes (s : list N)
-| OIntInst (c : N) (z : Z)       (* instance of an int subclass (IntEnum member) *)
+| OIntInst (c : N) (z : Z)       (* instance of an int subclass (IntEnum member, class ISub(int)) *)
+| OFloatInst (c : N) (h : Z)     (* instance of a float subclass (class FSub(float), float-Enum member); value h/2 *)
 | OInst (c : N) (k : N)          (* instance k of user class c; default (identity) __eq__/__hash__ *)
 | OClass (c : N)                 (* a class object *)
 | OTuple (id : N) (l : list obj)
@@ -36,7 +37,7 @@ Definition class_of (o : obj) : N :=
   match o with
   | ONone => c_NoneType | OBool _ => c_bool | OInt _ => c_int | OFloat _ => c_float
   | OComplex _ _ => c_complex | OStr _ => c_str | OBytes _ => c_bytes
-  | OIntInst c _ => c | OInst c _ => c | OClass _ => c_type
+  | OIntInst c _ => c | OFloatInst c _ => c | OInst c _ => c | OClass _ => c_type
   | OTuple _ _ => c_tuple | OList _ _ => c_list | OSet _ _ => c_set
   | OFrozenset _ => c_frozenset | ODict _ _ => c_dict
   end.
@@ -47,6 +48,7 @@ Definition num (o : obj) : option (Z * Z) :=
   | OBool b => Some ((if b then 2 else 0)%Z, 0%Z)
   | OInt z => Some ((2 * z)%Z, 0%Z)
   | OIntInst _ z => Some ((2 * z)%Z, 0%Z)
+  | OFloatInst _ h => Some (h, 0%Z)
   | OFloat h => Some (h, 0%Z)
   | OComplex r i => Some (r, i)
   | _ => None
@@ -130,6 +132,30 @@ Definition callable (o : obj) : bool :=
 
 (* type(a) is type(b) and a == b : KnownValue.__eq__ *)
 Definition same_literal (a b : obj) : bool := N.eqb (class_of a) (class_of b) && py_eq a b.
+
+(* KnownValue.__eq__ after repo_fixes/C14-known-value-eq-nested-types.diff: the same type and
+   equal, where the elements of tuples and frozensets are compared in the same way recursively
+   ((1, True) and (1, 1) are different literals; lists / sets / dicts inside are compared by ==) *)
+Fixpoint lit_key_eq (a b : obj) {struct a} : bool :=
+  match a, b with
+  | OTuple _ l1, OTuple _ l2 =>
+      (fix go (l1 l2 : list obj) {struct l1} : bool :=
+         match l1, l2 with
+         | [], [] => true
+         | x :: l1', y :: l2' => lit_key_eq x y && go l1' l2'
+         | _, _ => false
+         end) l1 l2
+  | OFrozenset l1, OFrozenset l2 =>
+      (fix incl (l1 : list obj) : bool :=
+         match l1 with
+         | [] => true
+         | x :: l1' => (fix has (l2 : list obj) : bool :=
+                          match l2 with [] => false | y :: l2' => lit_key_eq x y || has l2' end) l2 && incl l1'
+         end) l1
+      && forallb (fun y => (fix has (l1 : list obj) : bool :=
+                              match l1 with [] => false | x :: l1' => lit_key_eq x y || has l1' end) l1) l2
+  | _, _ => N.eqb (class_of a) (class_of b) && py_eq a b
+  end.
 
 (* hash(KnownValue(a)) == hash(KnownValue(b)), ideal hashing (no accidental
    collisions): hash((type, val)) when val is hashable, hash((type, id(val))) otherwise *)
